@@ -27,6 +27,28 @@ from basyx.aas import model
 logger = logging.getLogger(__name__)
 
 
+def _write_document(file_name: str, obj: model.Identifiable) -> None:
+    """
+    Write the JSON document of ``obj`` to ``file_name`` such that the file always holds one complete document
+
+    The object is serialized completely before the file system is touched, written to a temporary file next to the
+    target and moved into place with :func:`os.replace`. Neither a serialization error nor a failure or crash while
+    writing can therefore truncate an existing document or leave an incomplete one behind under the document's name.
+    """
+    data = json.dumps({"data": obj}, cls=json_serialization.AASToJsonEncoder, indent=4)
+    tmp_name = file_name + ".tmp"
+    try:
+        with open(tmp_name, "w") as file:
+            file.write(data)
+        os.replace(tmp_name, file_name)
+    except BaseException:
+        try:
+            os.remove(tmp_name)
+        except OSError:
+            pass
+        raise
+
+
 class LocalFileBackend(backends.Backend):
     """
     This Backend stores each Identifiable object as a single JSON document as a local file in a directory.
@@ -59,8 +81,7 @@ class LocalFileBackend(backends.Backend):
             raise FileBackendSourceError("The given store_object is not Identifiable, therefore cannot be found "
                                          "in the FileBackend")
         file_name: str = store_object.source.replace("file://localhost/", "")
-        with open(file_name, "w") as file:
-            json.dump({'data': store_object}, file, cls=json_serialization.AASToJsonEncoder, indent=4)
+        _write_document(file_name, store_object)
 
 
 backends.register_backend("file", LocalFileBackend)
@@ -147,12 +168,14 @@ class LocalFileObjectStore(model.AbstractObjectStore):
         :raises KeyError: If an object with the same id exists already in the object store
         """
         logger.debug("Adding object %s to Local File Store ...", repr(x))
-        if os.path.exists("{}/{}.json".format(self.directory_path, self._transform_id(x.id))):
-            raise KeyError("Identifiable with id {} already exists in local file database".format(x.id))
-        with open("{}/{}.json".format(self.directory_path, self._transform_id(x.id)), "w") as file:
-            json.dump({"data": x}, file, cls=json_serialization.AASToJsonEncoder, indent=4)
-            with self._object_cache_lock:
-                self._object_cache[x.id] = x
+        file_name = "{}/{}.json".format(self.directory_path, self._transform_id(x.id))
+        # The lock is held from the existence check until the object is cached, so that a concurrent retrieval through
+        # this store either does not see the document yet or finds `x` in the cache (never creates a second replica)
+        with self._object_cache_lock:
+            if os.path.exists(file_name):
+                raise KeyError("Identifiable with id {} already exists in local file database".format(x.id))
+            _write_document(file_name, x)
+            self._object_cache[x.id] = x
             self.generate_source(x)  # Set the source of the object
 
     def discard(self, x: model.Identifiable) -> None:
@@ -197,7 +220,7 @@ class LocalFileObjectStore(model.AbstractObjectStore):
         :return: The number of objects (determined from the number of documents)
         """
         logger.debug("Fetching number of documents from database ...")
-        return len(os.listdir(self.directory_path))
+        return len([name for name in os.listdir(self.directory_path) if name.endswith(".json")])
 
     def __iter__(self) -> Iterator[model.Identifiable]:
         """
@@ -208,7 +231,9 @@ class LocalFileObjectStore(model.AbstractObjectStore):
         """
         logger.debug("Iterating over objects in database ...")
         for name in os.listdir(self.directory_path):
-            yield self.get_identifiable_by_hash(name.rstrip(".json"))
+            if not name.endswith(".json"):
+                continue  # not a document (e.g. the temporary file of an interrupted write)
+            yield self.get_identifiable_by_hash(name[:-len(".json")])
 
     @staticmethod
     def _transform_id(identifier: model.Identifier) -> str:
